@@ -9,6 +9,7 @@ Parts (each a family of *units*; units are packed into shards of similar cost):
   d  ctc_greedy_search                     (E1, every frame-label sequence x in_lens)
 """
 
+import contextlib
 import itertools
 import math
 import random
@@ -23,7 +24,7 @@ from mc.runner import Ctx
 from mc.explore import Chooser, HarnessError, explore
 from mc.seams import ScriptedRandom
 from mc.oracles import seqscores as O
-from checks._c07_lm import TableLM
+from checks._c07_lm import ScriptTableLM, TableLM
 
 PROP = "C07"
 LEVEL = "model_checking"
@@ -48,7 +49,21 @@ RULE = (
     "index, seed-independent); in b/c/s the table LM emits finite garbage/-inf/nan/+inf for every history that "
     "already contains eos. GUARDS on every library call: argument tensors unchanged afterwards; tensors returned "
     "by the previous call through the same function/module object (modules are reused across the unit) unchanged "
-    "after the next unrelated call. Cases are distinct by construction (cartesian products of duplicate-free generators; explorer "
+    "after the next unrelated call. INPUT / TORCH STATE (values must not depend on it): a/p hand over logits with "
+    "requires_grad=True in every third case (hashed); every walk tree of b is explored four times (plain, LM scores "
+    "attached to the autograd graph, torch.inference_mode, default dtype float64) and with the negative spelling "
+    "of eos; c/s attach the LM scores to the graph in one of the two cache variants; d alternates detached / "
+    "requires_grad score tensors over the padding kinds and rotates {plain, requires_grad, float64 scores, int32 "
+    "in_lens, default float64, inference_mode} over the singles. j) SCRIPTED AND TRACED MODULES, one call per "
+    "batch: SequenceLogProbabilities (tensor input: the batch of ALL hyps of length 3, every layout/dim/eos; "
+    "packed input: every length pattern of N=T=3 x packing mode x 4 contents) and CTCGreedySearch (ragged batch of "
+    "all rows, T=3, every blank_idx/batch_first/is_probs, in_lens given or not) as eager module, "
+    "torch.jit.script(module) and torch.jit.trace(module, example) where the example differs from the evaluated "
+    "batch (other T and N, every token in vocabulary and different from eos, a single full-length element, a "
+    "one-step packing), each x the six input/torch states; RandomWalk scripted together with a scriptable twin of "
+    "the table LM: for generator seeds 0..7 x {plain, inference_mode, default float64} the scripted walk must "
+    "return exactly the eager result from the same generator state and satisfy the per-leaf clauses. "
+    "Cases are distinct by construction (cartesian products of duplicate-free generators; explorer "
     "leaves are distinct choice lists); non-trivial = at least one in-vocabulary token is scored (a,p), the "
     "path has >= 2 tokens or ends early (b,c), the collapsed output differs from the raw labels (d)."
 )
@@ -62,7 +77,13 @@ ASSUMPTIONS = [
     "scores at positions the property declares ignored (OOV token, after the first eos, frames >= in_lens, LM "
     "outputs for finished paths) may be anything including nan/+-inf; valid positions are always finite",
     "each a/p case gets ONE kind of garbage in its ignored positions (rotating), not all four",
-    "max_iters=None (unbounded walks) is not explored; TorchScript/CUDA variants not explored",
+    "max_iters=None (unbounded walks) is not explored; CUDA not explored; the process-wide PYTORCH_JIT=1 "
+    "(config.USE_JIT, every helper compiled at import) configuration is not explored",
+    "scripted / traced modules are exercised per batch (part j), not per enumerated case; the draws inside a "
+    "scripted RandomWalk cannot be owned by the seam, so that comparison is over 8 generator seeds, not exhaustive; "
+    "traced packed input is evaluated on packings with sorted/unsorted indices only (a trace cannot carry None)",
+    "int32 hyp / in_lens and float64 scores are accepted although the docstrings say 'long tensor' (they work on "
+    "the unchanged tree); results for float64 input are compared at the float32 tolerance",
 ]
 BUDGET_S = {"quick": 240, "thorough": 2400}
 TOL = 2e-5
@@ -182,6 +203,28 @@ class _Guard:
         self.kept[key] = [(t, t.clone()) for t in _flat_tensors(out)]
         self.ctx.count("guarded_calls")
         return out
+
+
+@contextlib.contextmanager
+def _torch_state(mode):
+    """Global torch state around library calls: 'default-float64' / 'inference' / anything else = plain."""
+    if mode == "default-float64":
+        old = torch.get_default_dtype()
+        torch.set_default_dtype(torch.float64)
+        try:
+            yield
+        finally:
+            torch.set_default_dtype(old)
+    elif mode == "inference":
+        with torch.inference_mode():
+            yield
+    else:
+        yield
+
+
+def _grad_bit(ci):
+    """every third case (hashed) hands over logits that are attached to the autograd graph"""
+    return (((ci + 1) * 40503) >> 4) % 3 == 0
 
 
 class _Tree:
@@ -304,13 +347,17 @@ def _a_unit(ctx, u, tier, seed, only=None):
         hyp, logits = _a_layout(layout, H, Lc)
         if ci % 2:
             hyp, logits = hyp.contiguous(), logits.contiguous()
+        grad = _grad_bit(ci)
+        if grad:  # autograd state of the input must not change the value
+            logits = logits.clone().requires_grad_(True)
         exp = [[O.seq_log_prob(lsm[e][b], per_e[e][b], eos) for b in range(n)] for e in range(E)]
         scored = any(0 <= tok < V for e in range(E) for b in range(n)
                      for tok in per_e[e][b][: O.first_eos_len(per_e[e][b], eos)])
         ctx.case(1, 1 if scored else 0)
         case = {"part": "a", "unit": u, "content": content, "seed": seed, "tier": tier}
         sig0 = {"api": "sequence_log_probs", "input": "tensor", "eos_set": eos is not None,
-                "neg_dim": dim < 0, "hyp_dims": hyp.dim(), "zero_steps": T == 0, "ignored_positions": kind}
+                "neg_dim": dim < 0, "hyp_dims": hyp.dim(), "zero_steps": T == 0, "ignored_positions": kind,
+                "requires_grad": grad}
         try:
             if ci % 4 < 2:
                 out = guard("F", "sequence_log_probs", case,
@@ -330,7 +377,7 @@ def _a_unit(ctx, u, tier, seed, only=None):
             ctx.violation(dict(sig0, symptom="wrong-shape"), case,
                           {"expected": list(want_shape), "observed": list(out.shape)})
             continue
-        got = out.reshape(-1).tolist()
+        got = out.detach().reshape(-1).tolist()
         bad = [i for i, (g, x) in enumerate(zip(got, flat_exp)) if not O.close(g, x, TOL)]
         if bad:
             ctx.violation(dict(sig0, symptom="wrong-value"), case, {"expected": flat_exp, "observed": got})
@@ -353,7 +400,7 @@ def _p_units(tier):
                         if eos is not None and full and N == 2 and tier == "quick" and T == 2 and eos > 0:
                             continue
                         units.append({"part": "p", "V": V, "N": N, "T": T, "dim": dim, "eos": eos, "full": full,
-                                      "w": ncontent * (T ** N) * 2 * 300 + 3000})
+                                      "w": ncontent * (T ** N) * 2 * 450 + 3000})
     return units
 
 
@@ -369,6 +416,22 @@ def _p_contents(V, T, N, full):
         else:  # cyclic through the alphabet: OOV on both sides at shifting places
             out.append(tuple(tuple(alpha[(t * (k + 1) + b + k) % len(alpha)] for t in range(T)) for b in range(N)))
     return out
+
+
+def _pack(Lx, lens, mode):
+    """mode: True / False = enforce_sorted; 'reversed-ties' = a legal hand-built packing whose sorted_indices
+    break length ties in reverse batch order (e.g. a collate function that sorts ascending and flips);
+    round-trips through pad_packed_sequence."""
+    N = len(lens)
+    if mode == "reversed-ties":
+        perm = sorted(range(N), key=lambda b: (-lens[b], -b))
+        sidx = torch.tensor(perm)
+        base = torch.nn.utils.rnn.pack_padded_sequence(
+            Lx[:, sidx], torch.tensor([lens[b] for b in perm]), enforce_sorted=True)
+        uidx = torch.empty(N, dtype=torch.long)
+        uidx[sidx] = torch.arange(N)
+        return torch.nn.utils.rnn.PackedSequence(base.data, base.batch_sizes, sidx, uidx)
+    return torch.nn.utils.rnn.pack_padded_sequence(Lx, torch.tensor(lens), enforce_sorted=mode)
 
 
 def _p_unit(ctx, u, tier, seed, only=None):
@@ -399,18 +462,7 @@ def _p_unit(ctx, u, tier, seed, only=None):
                 continue
 
             def pack(Lx, lens=lens, enforce_sorted=enforce_sorted):
-                if enforce_sorted == "reversed-ties":
-                    # a legal hand-built packing whose sorted_indices break length ties in reverse batch order
-                    # (e.g. a collate function that sorts ascending and flips); round-trips through
-                    # pad_packed_sequence
-                    perm = sorted(range(N), key=lambda b: (-lens[b], -b))
-                    sidx = torch.tensor(perm)
-                    base = torch.nn.utils.rnn.pack_padded_sequence(
-                        Lx[:, sidx], torch.tensor([lens[b] for b in perm]), enforce_sorted=True)
-                    uidx = torch.empty(N, dtype=torch.long)
-                    uidx[sidx] = torch.arange(N)
-                    return torch.nn.utils.rnn.PackedSequence(base.data, base.batch_sizes, sidx, uidx)
-                return torch.nn.utils.rnn.pack_padded_sequence(Lx, torch.tensor(lens), enforce_sorted=enforce_sorted)
+                return _pack(Lx, lens, enforce_sorted)
 
             ps_plain = pack(L)
             for content in contents:
@@ -429,6 +481,9 @@ def _p_unit(ctx, u, tier, seed, only=None):
                                 _poison_row(Lc[t, b], kind, (t + b) % 2 == 1)
                                 ctx.count("ignored_positions_made_non_finite")
                     ps = pack(Lc)
+                grad = _grad_bit(ci)
+                if grad:
+                    ps = pack((L if kind == "finite" else Lc).clone().requires_grad_(True))
                 H = torch.tensor(content, dtype=torch.long)  # (N,T)
                 hyp = H if dim in (1, -1) else H.t()
                 if ci % 2:
@@ -443,7 +498,8 @@ def _p_unit(ctx, u, tier, seed, only=None):
                 case = {"part": "p", "unit": u, "seed": seed, "tier": tier,
                         "sub": {"content": content, "lens": lens, "enforce_sorted": enforce_sorted, "ci": ci}}
                 sig0 = {"api": "sequence_log_probs", "input": "packed", "eos_set": eos is not None,
-                        "neg_dim": dim < 0, "sorted": enforce_sorted, "ignored_positions": kind}
+                        "neg_dim": dim < 0, "sorted": enforce_sorted, "ignored_positions": kind,
+                        "requires_grad": grad}
                 try:
                     if ci % 4 < 2:
                         out = guard("F", "sequence_log_probs", case,
@@ -457,7 +513,7 @@ def _p_unit(ctx, u, tier, seed, only=None):
                 if tuple(out.shape) != (N,):
                     ctx.violation(dict(sig0, symptom="wrong-shape"), case, {"observed": list(out.shape)})
                     continue
-                got = out.tolist()
+                got = out.detach().tolist()
                 if any(not O.close(g, x, TOL) for g, x in zip(got, exp)):
                     ctx.violation(dict(sig0, symptom="wrong-value"), case, {"expected": exp, "observed": got})
                 else:
@@ -533,8 +589,7 @@ def _walk_configs(tier):
     Ts = (1, 2, 3, 4) if tier == "thorough" else (1, 2, 3)
     for V in (2, 3):
         eoss = [None] + list(range(V))
-        if tier == "thorough":
-            eoss += [-1 - e for e in range(V)]  # negative spellings
+        eoss += [-1 - e for e in range(V)] if tier == "thorough" else [-1]  # negative spellings
         for T in Ts:
             for eos in eoss:
                 for bs in (None, 1, 2) + ((3,) if tier == "thorough" and V == 2 else ()):
@@ -550,19 +605,29 @@ def _b_units(tier):
     for V, T, eos, bs in _walk_configs(tier):
         eosn = None if eos is None else eos % V
         leaves = _n_leaves(V, T, eosn, bs or 1)
-        units.append({"part": "b", "V": V, "max_iters": T, "eos": eos, "batch_size": bs,
-                      "w": leaves * 2500 + 5000})
+        for mode in B_MODES:
+            units.append({"part": "b", "V": V, "max_iters": T, "eos": eos, "batch_size": bs, "mode": mode,
+                          "w": leaves * 2500 + 5000})
     return units
 
 
+B_MODES = ("plain", "requires-grad", "inference", "default-float64")
+
+
 def _b_unit(ctx, u, tier, seed, only=None):
+    with _torch_state(u.get("mode", "plain")):
+        _b_unit_inner(ctx, u, tier, seed, only)
+
+
+def _b_unit_inner(ctx, u, tier, seed, only=None):
     V, T, eos, bs = u["V"], u["max_iters"], u["eos"], u["batch_size"]
+    mode = u.get("mode", "plain")
     N = bs or 1
     eosn = None if eos is None else eos % V
-    lm = TableLM(V, T, seed, poison_eos=eosn)
+    lm = TableLM(V, T, seed, poison_eos=eosn, grad=mode == "requires-grad")
     rows = [(b + 1) % 2 for b in range(N)]
     init = {"row": torch.tensor(rows)}
-    tree = _Tree(["b", V, T, eos, bs])
+    tree = _Tree(["b", V, T, eos, bs, mode])
     guard = _Guard(ctx)
     gcase = {"part": "b", "unit": u, "seed": seed, "tier": tier}
     try:
@@ -597,7 +662,7 @@ def _b_unit(ctx, u, tier, seed, only=None):
     leaf_paths = []
     for ch, res in executions:
         case = {"part": "b", "unit": u, "choices": ch.choices, "seed": seed, "tier": tier}
-        sig0 = {"api": "RandomWalk", "eos_set": eos is not None, "batched": bs is not None}
+        sig0 = {"api": "RandomWalk", "eos_set": eos is not None, "batched": bs is not None, "torch_state": mode}
         mass += ch.prob
         if isinstance(res, Exception):
             ctx.case(1)
@@ -621,7 +686,7 @@ def _b_unit(ctx, u, tier, seed, only=None):
             continue
         S = y.size(0)
         lens = y_lens.tolist()
-        reported = lp.tolist()
+        reported = lp.detach().tolist()
         want = O.replay_walk_draws(draws, N, T, eosn)
         paths = []
         bad = None
@@ -668,7 +733,7 @@ def _b_unit(ctx, u, tier, seed, only=None):
                         lambda: F.sequence_log_probs(full, clean, 0, eosn), full, clean)
             if tuple(slp.shape) != (N,):
                 raise AssertionError(f"shape {tuple(slp.shape)}")
-            slp = slp.tolist()
+            slp = slp.detach().tolist()
         except Exception as e:  # noqa: BLE001
             slp = None
             agree = False
@@ -686,7 +751,7 @@ def _b_unit(ctx, u, tier, seed, only=None):
         if dlp is None:
             agree = False
         else:
-            dl = dlp.reshape(-1).tolist()
+            dl = dlp.detach().reshape(-1).tolist()
             if any(not O.close(a, c, TOL) for a, c in zip(dl, chain)):
                 agree = False
                 ctx.violation({"api": API_LP, "symptom": "wrong-value", "batch_size_set": False,
@@ -702,7 +767,7 @@ def _b_unit(ctx, u, tier, seed, only=None):
     tree.flush(ctx)
     # ---- over the whole tree -----------------------------------------------------------
     tcase = {"part": "b", "unit": u, "seed": seed, "tier": tier}
-    tsig = {"api": "RandomWalk", "eos_set": eos is not None, "batched": bs is not None}
+    tsig = {"api": "RandomWalk", "eos_set": eos is not None, "batched": bs is not None, "torch_state": mode}
     if not O.close(mass, 1.0, 1e-9):
         ctx.violation(dict(tsig, symptom="tree-mass-not-one"), tcase, {"sum_of_leaf_probabilities": mass})
     if not O.close(mass_reported, 1.0, 1e-4):
@@ -748,8 +813,8 @@ def _c_units(tier):
     return units
 
 
-def _make_dist(V, T, eos, bs, cache, seed):
-    lm = TableLM(V, T, seed, poison_eos=eos)
+def _make_dist(V, T, eos, bs, cache, seed, grad=False):
+    lm = TableLM(V, T, seed, poison_eos=eos, grad=grad)
     rows = [(b + 1) % 2 for b in range(bs or 1)] if bs else [0]
     init = {"row": torch.tensor(rows)} if bs else None
     walk = M.RandomWalk(lm, eos)
@@ -763,7 +828,9 @@ def _c_unit(ctx, u, tier, seed, only=None):
     N = bs or 1
     Msz = _prod(shape)
     bset = bs is not None
-    lm, rows, d = _make_dist(V, T, eos, bs, cache, seed)
+    # the LM's scores are attached to the autograd graph in one of the two cache variants of every configuration
+    grad = cache != ((V + T + (bs or 0) + len(shape) + sum(shape)) % 2 == 0)
+    lm, rows, d = _make_dist(V, T, eos, bs, cache, seed, grad)
     tree = _Tree(["c", V, T, eos, bs, shape, cache])
     comp = set(O.complete_paths(V, T, eos))
     guard = _Guard(ctx)
@@ -869,7 +936,7 @@ def _c_unit(ctx, u, tier, seed, only=None):
             _lm_protocol(ctx, lm, API_LP, case)
             if lp is None:
                 return False
-            gl = lp.reshape(-1).tolist()
+            gl = lp.detach().reshape(-1).tolist()
             if any(not O.close(a, c, TOL) for a, c in zip(gl, want)):
                 ctx.violation({"api": API_LP, "symptom": "wrong-value", "batch_size_set": bset,
                                "eos_set": eos is not None,
@@ -927,7 +994,8 @@ def _s_unit(ctx, u, tier, seed, only=None):
     V, T, eos, bs, cache = u["V"], u["max_iters"], u["eos"], u["batch_size"], u["cache"]
     N = bs or 1
     bset = bs is not None
-    lm, rows, d = _make_dist(V, T, eos, bs, cache, seed)
+    grad = cache != ((V + T + (bs or 0)) % 2 == 0)
+    lm, rows, d = _make_dist(V, T, eos, bs, cache, seed, grad)
     case = {"part": "s", "unit": u, "seed": seed, "tier": tier}
     sig0 = {"api": API_SUP, "eos_set": eos is not None, "batch_size_set": bset}
     comp = O.complete_paths(V, T, eos)
@@ -975,7 +1043,7 @@ def _s_unit(ctx, u, tier, seed, only=None):
     _lm_protocol(ctx, lm, API_LP, case)
     ok_all = lp is not None
     if lp is not None:
-        lp2 = lp.reshape(K, N).tolist()
+        lp2 = lp.detach().reshape(K, N).tolist()
         for b in range(N):
             tot = sum(math.exp(lp2[k][b]) for k in range(K))
             if not O.close(tot, 1.0, 1e-4):
@@ -996,7 +1064,7 @@ def _s_unit(ctx, u, tier, seed, only=None):
             if lpk is None:
                 ok_all = False
                 continue
-            gl = lpk.reshape(-1).tolist()
+            gl = lpk.detach().reshape(-1).tolist()
             if any(not O.close(a, c, TOL) for a, c in zip(gl, chain[k])):
                 ok_all = False
                 ctx.violation({"api": API_LP, "symptom": "wrong-value", "batch_size_set": bset,
@@ -1068,9 +1136,14 @@ def _d_fill(x, rows, fill):
     return x
 
 
+STATES = ("plain", "requires-grad", "float64", "int32", "default-float64", "inference")
+
+
 def _d_eval(ctx, u, case, logits_tnc, rows, in_lens_given, blank, batch_first, is_probs, use_module, tag,
-            guard=None, mods=None, fill="own-frames"):
-    """rows: list of (labels, in_len); logits_tnc: (T,R,C) float32 tensor of frame scores."""
+            guard=None, mods=None, fill="own-frames", state="plain", call=None, variant=None):
+    """rows: list of (labels, in_len); logits_tnc: (T,R,C) float32 tensor of frame scores.
+    state: autograd / dtype / global torch state of the call (the value must not depend on it);
+    call: optional callable (inp, in_lens) replacing the eager function/module (scripted, traced)."""
     T, R, C = logits_tnc.shape
     x = logits_tnc.softmax(2) if is_probs else logits_tnc
     if in_lens_given:
@@ -1078,24 +1151,41 @@ def _d_eval(ctx, u, case, logits_tnc, rows, in_lens_given, blank, batch_first, i
     frames = x.double().tolist()  # [t][r][c] exactly what the implementation sees
     inp = x.transpose(0, 1).contiguous() if batch_first else x
     in_lens = torch.tensor([r[1] for r in rows], dtype=torch.long) if in_lens_given else None
+    if state == "requires-grad":
+        inp = inp.clone().requires_grad_(True)
+    elif state == "float64":
+        inp = inp.double()
+    elif state == "int32" and in_lens is not None:
+        in_lens = in_lens.int()
+    variant = variant or ("module" if use_module else "functional")
     sig0 = {"api": "ctc_greedy_search", "is_probs": is_probs, "batch_first": batch_first,
-            "in_lens_given": in_lens_given, "neg_blank": blank < 0, "batching": tag, "frames_past_in_lens": fill}
+            "in_lens_given": in_lens_given, "neg_blank": blank < 0, "batching": tag, "frames_past_in_lens": fill,
+            "input_state": state, "variant": variant}
     guard = guard if guard is not None else _Guard(ctx)
     gcase = dict(case, batching=tag, batch_first=batch_first, is_probs=is_probs, in_lens_given=in_lens_given,
-                 module=use_module, fill=fill)
+                 module=use_module, fill=fill, state=state, variant=variant)
     try:
-        if use_module:
+        if call is not None:
+            with _torch_state(state):
+                mx, paths, out_lens = guard((variant, batch_first, is_probs, in_lens_given), "ctc_greedy_search",
+                                            gcase, lambda: call(inp, in_lens), inp, in_lens)
+            mx = mx.detach()
+        elif use_module:
             mod = None if mods is None else mods.get((batch_first, is_probs))
             if mod is None:
                 mod = M.CTCGreedySearch(blank, batch_first, is_probs)
                 if mods is not None:
                     mods[(batch_first, is_probs)] = mod
-            mx, paths, out_lens = guard(("M", batch_first, is_probs), "ctc_greedy_search", gcase,
-                                        lambda: mod(inp, in_lens), inp, in_lens)
+            with _torch_state(state):
+                mx, paths, out_lens = guard(("M", batch_first, is_probs), "ctc_greedy_search", gcase,
+                                            lambda: mod(inp, in_lens), inp, in_lens)
+            mx = mx.detach()
         else:
-            mx, paths, out_lens = guard("F", "ctc_greedy_search", gcase,
-                                        lambda: F.ctc_greedy_search(inp, in_lens, blank, batch_first, is_probs),
-                                        inp, in_lens)
+            with _torch_state(state):
+                mx, paths, out_lens = guard("F", "ctc_greedy_search", gcase,
+                                            lambda: F.ctc_greedy_search(inp, in_lens, blank, batch_first, is_probs),
+                                            inp, in_lens)
+            mx = mx.detach()
     except Exception as e:  # noqa: BLE001
         ctx.case(R)
         ctx.violation(dict(sig0, symptom="raises", type=type(e).__name__), case, {"error": str(e)[-300:]})
@@ -1148,25 +1238,289 @@ def _d_unit(ctx, u, tier, seed, only=None):
         k += 1
         fills = D_FILLS[is_probs] if (in_lens_given and T > 0) else ("own-frames",)
         for fi, fill in enumerate(fills):
+            # autograd state of the scores: each padding kind once detached and once attached to the graph
+            st = ("plain", "requires-grad") if (k + fi) % 2 else ("requires-grad", "plain")
             _d_eval(ctx, u, case, full, rows, in_lens_given, blank, batch_first, is_probs, (k + fi) % 2 == 0,
-                    "ragged-batch", guard, mods, fill)
+                    "ragged-batch", guard, mods, fill, st[0])
             _d_eval(ctx, u, case, full.flip(1), rev, in_lens_given, blank, batch_first, is_probs, (k + fi) % 2 == 1,
-                    "ragged-batch-reversed", guard, mods, fill)
+                    "ragged-batch-reversed", guard, mods, fill, st[1])
         if in_lens_given:
             step = 1 if (tier == "thorough" or R <= 60) else 5
             for r in range(k % step, R, step):
                 _d_eval(ctx, u, case, full[:, r: r + 1], rows[r: r + 1], True, blank, batch_first, is_probs,
-                        (r + k) % 2 == 0, "single", guard, mods, fills[(r + k) % len(fills)])
+                        (r + k) % 2 == 0, "single", guard, mods, fills[(r + k) % len(fills)],
+                        STATES[(r // 2 + k) % len(STATES)])
+
+
+# =========================================================================================
+# part j: scripted / traced modules, autograd state, dtypes, global torch state (one batch per call)
+# =========================================================================================
+def _j_units(tier):
+    units = []
+    for V in (2, 3):
+        for layout in ("TN", "NT", "ETN", "TEN", "ENT"):
+            _, _, pos, nd = LAYOUTS[layout]
+            for dim in (pos, pos - nd):
+                for eos in [None] + list(range(V)):
+                    units.append({"part": "j", "kind": "seq", "V": V, "layout": layout, "dim": dim, "eos": eos,
+                                  "w": 30000})
+        for dim in (0, 1, -1, -2):
+            for eos in (None, 0):
+                units.append({"part": "j", "kind": "seqp", "V": V, "dim": dim, "eos": eos, "w": 200000})
+        for eos in [None] + list(range(V)) + [-1]:
+            for bs in (None, 2, 3):
+                units.append({"part": "j", "kind": "walk", "V": V, "eos": eos, "batch_size": bs, "w": 50000})
+    for C in (1, 2, 3):
+        for blank in range(-C, C):
+            units.append({"part": "j", "kind": "ctc", "C": C, "T": 3, "blank_idx": blank, "w": 300000})
+    return units
+
+
+def _jit_variants(ctx, module, examples, api, case):
+    """eager module + torch.jit.script(module) + torch.jit.trace(module, example) for every example."""
+    out = [("eager", module)]
+    try:
+        out.append(("script", torch.jit.script(module)))
+    except Exception as e:  # noqa: BLE001
+        ctx.violation({"api": api, "symptom": "raises", "where": "torch.jit.script", "type": type(e).__name__},
+                      case, {"error": str(e)[-300:]})
+    for name, ex in examples:
+        try:
+            out.append((name, torch.jit.trace(module, ex, check_trace=False)))
+        except Exception as e:  # noqa: BLE001
+            ctx.violation({"api": api, "symptom": "raises", "where": "torch.jit.trace", "type": type(e).__name__},
+                          dict(case, example=name), {"error": str(e)[-300:]})
+    return out
+
+
+def _j_seq(ctx, u, tier, seed):
+    V, layout, dim, eos = u["V"], u["layout"], u["dim"], u["eos"]
+    T = 3
+    E = 2 if len(layout) == 3 else 1
+    alpha = list(range(-1, V + 1))
+    seqs = O.all_sequences(alpha, T)
+    K = len(seqs)
+    per_e = [seqs, list(reversed(seqs))][:E]
+    rng = _rng(seed, "j", V, layout)
+    L = _rand_tensor(rng, (E, T, K, V))
+    lsm = [[[O.log_softmax(L[e, t, b].double().tolist()) for t in range(T)] for b in range(K)] for e in range(E)]
+    for e in range(E):
+        for b in range(K):
+            stop = O.first_eos_len(per_e[e][b], eos)
+            for t in range(T):
+                if t >= stop or not (0 <= per_e[e][b][t] < V):
+                    _poison_row(L[e, t, b], FILL_KINDS[(b + e + t) % 4], (t + b) % 2 == 1)
+    H = torch.tensor(per_e, dtype=torch.long).permute(0, 2, 1)
+    hyp, logits = _a_layout(layout, H, L)
+    hyp, logits = hyp.contiguous(), logits.contiguous()
+    exp = [O.seq_log_prob(lsm[e][b], per_e[e][b], eos) for e in range(E) for b in range(K)]
+    scored = sum(1 for e in range(E) for b in range(K)
+                 if any(0 <= tok < V for tok in per_e[e][b][: O.first_eos_len(per_e[e][b], eos)]))
+    # the tracing example differs from the evaluated batch in every way that matters: other T, N (and E), every
+    # token in vocabulary and none of them the eos
+    tok = 1 if eos == 0 else 0
+    Hx = torch.full((1, 2, 3), tok, dtype=torch.long)
+    hx, lx = _a_layout(layout, Hx, _rand_tensor(rng, (1, 2, 3, V)))
+    case = {"part": "j", "unit": u, "seed": seed, "tier": tier}
+    module = M.SequenceLogProbabilities(dim, eos)
+    variants = _jit_variants(ctx, module, [("trace", (lx.contiguous(), hx.contiguous()))], "sequence_log_probs", case)
+    guard = _Guard(ctx)
+    ctx.sample({"part": "j", "unit": {k: u[k] for k in u if k != "w"}, "batch_of_all_hyps": K * E,
+                "variants": [v[0] for v in variants], "states": STATES})
+    for vname, fn in variants:
+        for state in STATES:
+            lg, hy = logits, hyp
+            if state == "requires-grad":
+                lg = logits.clone().requires_grad_(True)
+            elif state == "float64":
+                lg = logits.double()
+            elif state == "int32":
+                hy = hyp.int()
+            ctx.case(K * E, scored)
+            sig0 = {"api": "sequence_log_probs", "input": "tensor", "eos_set": eos is not None, "neg_dim": dim < 0,
+                    "variant": vname, "input_state": state}
+            c2 = dict(case, variant=vname, state=state)
+            try:
+                with _torch_state(state):
+                    out = guard(vname, "sequence_log_probs", c2, lambda: fn(lg, hy), lg, hy)
+            except Exception as e:  # noqa: BLE001
+                ctx.violation(dict(sig0, symptom="raises", type=type(e).__name__), c2, {"error": str(e)[-300:]})
+                continue
+            if out.numel() != K * E:
+                ctx.violation(dict(sig0, symptom="wrong-shape"), c2, {"observed": list(out.shape)})
+                continue
+            got = out.detach().reshape(-1).tolist()
+            bad = [i for i, (g, x) in enumerate(zip(got, exp)) if not O.close(g, x, TOL)]
+            if bad:
+                i = bad[0]
+                ctx.violation(dict(sig0, symptom="wrong-value"), c2,
+                              {"hyp": per_e[i // K][i % K], "expected": exp[i], "observed": got[i],
+                               "wrong_elements": len(bad)})
+            else:
+                ctx.outcome(["j-seq", vname, state])
+
+
+def _j_seqp(ctx, u, tier, seed):
+    V, dim, eos = u["V"], u["dim"], u["eos"]
+    N = T = 3
+    rng = _rng(seed, "jp", V)
+    L = _rand_tensor(rng, (T, N, V))
+    lsm = [[O.log_softmax(L[t, b].double().tolist()) for t in range(T)] for b in range(N)]
+    contents = _p_contents(V, T, N, False)
+    case = {"part": "j", "unit": u, "seed": seed, "tier": tier}
+    module = M.SequenceLogProbabilities(dim, eos)
+    # tracing example: one sequence of one step (an unsorted packing: traces cannot carry None indices)
+    ex_ps = torch.nn.utils.rnn.pack_padded_sequence(_rand_tensor(rng, (1, 1, V)), torch.tensor([1]),
+                                                    enforce_sorted=False)
+    variants = _jit_variants(ctx, module, [("trace", (ex_ps, torch.zeros((1, 1), dtype=torch.long)))],
+                             "sequence_log_probs", case)
+    guard = _Guard(ctx)
+    k = 0
+    for pi, lens in enumerate(itertools.product(range(1, T + 1), repeat=N)):
+        descending = all(lens[i] >= lens[i + 1] for i in range(N - 1))
+        for mode in (True, False, "reversed-ties"):
+            if (mode is True and not descending) or (mode == "reversed-ties" and len(set(lens)) == N):
+                continue
+            for ci, content in enumerate(contents):
+                Lc = L.clone()
+                for b in range(N):
+                    for t in range(T):
+                        if t >= lens[b] or not (0 <= content[b][t] < V):
+                            _poison_row(Lc[t, b], FILL_KINDS[(pi + ci + t) % 4], (t + b) % 2 == 1)
+                Hc = torch.tensor(content, dtype=torch.long)
+                hyp0 = (Hc if dim in (1, -1) else Hc.t()).contiguous()
+                exp = [O.seq_log_prob(lsm[b], content[b], None, lens[b]) for b in range(N)]
+                scored = any(0 <= tok < V for b in range(N) for tok in content[b][: lens[b]])
+                for vname, fn in variants:
+                    if vname == "trace" and mode is True:
+                        continue
+                    k += 1
+                    state = STATES[k % len(STATES)]
+                    Lx, hy = Lc, hyp0
+                    if state == "requires-grad":
+                        Lx = Lc.clone().requires_grad_(True)
+                    elif state == "float64":
+                        Lx = Lc.double()
+                    elif state == "int32":
+                        hy = hyp0.int()
+                    ps = _pack(Lx, lens, mode)
+                    ctx.case(1, 1 if scored else 0)
+                    sig0 = {"api": "sequence_log_probs", "input": "packed", "eos_set": eos is not None,
+                            "neg_dim": dim < 0, "sorted": mode, "variant": vname, "input_state": state}
+                    c2 = dict(case, variant=vname, state=state, lens=lens, mode=mode, content=content)
+                    try:
+                        with _torch_state(state):
+                            out = guard(vname, "sequence_log_probs", c2, lambda: fn(ps, hy), ps, hy)
+                    except Exception as e:  # noqa: BLE001
+                        ctx.violation(dict(sig0, symptom="raises", type=type(e).__name__), c2,
+                                      {"error": str(e)[-300:]})
+                        continue
+                    got = out.detach().reshape(-1).tolist()
+                    if len(got) != N or any(not O.close(g, x, TOL) for g, x in zip(got, exp)):
+                        ctx.violation(dict(sig0, symptom="wrong-value"), c2, {"expected": exp, "observed": got})
+                    else:
+                        ctx.outcome(["j-seqp", vname, state, mode])
+
+
+def _j_ctc(ctx, u, tier, seed):
+    C, T, blank = u["C"], u["T"], u["blank_idx"]
+    rng = _rng(seed, "jd", C, T)
+    rows = [(labels, in_len) for labels in O.all_sequences(range(C), T) for in_len in range(T + 1)]
+    per_row = [_d_logits(rng, labels, C) for labels, _ in rows]
+    full = torch.tensor(per_row, dtype=torch.float32).transpose(0, 1).contiguous()
+    case = {"part": "j", "unit": u, "seed": seed, "tier": tier}
+    guard = _Guard(ctx)
+    for batch_first, is_probs in itertools.product((False, True), (False, True)):
+        module = M.CTCGreedySearch(blank, batch_first, is_probs)
+        # tracing example: one full-length element of two frames (no padding, other T and N than the batch)
+        ex = _rand_tensor(rng, (1, 2, C) if batch_first else (2, 1, C))
+        if is_probs:
+            ex = ex.softmax(2)
+        for given in (True, False):
+            example = (ex, torch.tensor([2])) if given else (ex,)
+            variants = _jit_variants(ctx, module, [("trace", example)], "ctc_greedy_search",
+                                     dict(case, batch_first=batch_first, is_probs=is_probs, in_lens_given=given))
+            fills = D_FILLS[is_probs] if given else ("own-frames",)
+            for vi, (vname, fn) in enumerate(variants):
+                call = (lambda inp, il, fn=fn: fn(inp, il)) if given else (lambda inp, il, fn=fn: fn(inp))
+                for si, state in enumerate(STATES):
+                    _d_eval(ctx, u, case, full, rows, given, blank, batch_first, is_probs, True, "ragged-batch",
+                            guard, None, fills[(si + vi) % len(fills)], state, call, vname)
+
+
+def _j_walk(ctx, u, tier, seed):
+    """RandomWalk scripted together with its LM (as the repository's tests do).  torch.multinomial inside
+    TorchScript cannot be scripted from outside, so the generator seed is the enumerated input here: for
+    generator seeds 0..7 the scripted walk must return exactly what the eager walk returns from the same
+    generator state, and every returned path must satisfy the per-leaf clauses."""
+    V, eos, bs = u["V"], u["eos"], u["batch_size"]
+    T = 3
+    N = bs or 1
+    eosn = None if eos is None else eos % V
+    rows = [(b + 1) % 2 for b in range(N)]
+    case = {"part": "j", "unit": u, "seed": seed, "tier": tier}
+    sig0 = {"api": "RandomWalk", "eos_set": eos is not None, "batched": bs is not None, "variant": "script"}
+    try:
+        lm = ScriptTableLM(V, T, seed, poison_eos=eosn)
+        eager = M.RandomWalk(lm, eos)
+        scripted = torch.jit.script(M.RandomWalk(torch.jit.script(ScriptTableLM(V, T, seed, poison_eos=eosn)), eos))
+    except Exception as e:  # noqa: BLE001
+        ctx.case(1)
+        ctx.violation(dict(sig0, symptom="raises", where="torch.jit.script", type=type(e).__name__), case,
+                      {"error": str(e)[-300:]})
+        return
+    guard = _Guard(ctx)
+    for state in ("plain", "inference", "default-float64"):
+        for g in range(8):
+            c2 = dict(case, generator_seed=g, state=state)
+            s2 = dict(sig0, torch_state=state)
+            init = {"row": torch.tensor(rows)}
+            try:
+                with _torch_state(state):
+                    torch.manual_seed(g)
+                    ref = eager(dict(init), bs, T)
+                    torch.manual_seed(g)
+                    out = guard("walk", "RandomWalk", c2, lambda: scripted(init, bs, T), init)
+            except Exception as e:  # noqa: BLE001
+                ctx.case(1)
+                ctx.violation(dict(s2, symptom="raises", type=type(e).__name__), c2, {"error": str(e)[-300:]})
+                continue
+            y, y_lens, lp = out
+            same = all(a.shape == b.shape and _bits_equal(a.detach(), b.detach()) for a, b in zip(out, ref))
+            y2 = y.reshape(y.size(0), N)
+            lens = y_lens.reshape(N).tolist()
+            paths = [y2[: lens[b], b].tolist() for b in range(N)]
+            ctx.case(1, 1)  # (state, generator seed) pairs are distinct by construction
+            if not same:
+                ctx.violation(dict(s2, symptom="scripted-differs-from-eager"), c2,
+                              {"eager": ref, "scripted": out})
+                continue
+            if any(not O.path_is_complete(p, V, T, eosn) for p in paths):
+                ctx.violation(dict(s2, symptom="path-not-ended-at-first-eos-or-limit"), c2, {"y": y2.t(), "lens": lens})
+                continue
+            chain = [O.chain_rule(lm.table_list[rows[b]], paths[b], V) for b in range(N)]
+            rep_ = lp.detach().reshape(N).tolist()
+            if any(not O.close(a, c, TOL) for a, c in zip(rep_, chain)):
+                ctx.violation(dict(s2, symptom="reported-log-prob-vs-chain-rule"), c2,
+                              {"paths": paths, "reported": rep_, "chain_rule": chain})
+            else:
+                ctx.outcome(["j-walk", paths])
+                ctx.count("scripted_walks_equal_to_eager")
+
+
+def _j_unit(ctx, u, tier, seed, only=None):
+    {"seq": _j_seq, "seqp": _j_seqp, "ctc": _j_ctc, "walk": _j_walk}[u["kind"]](ctx, u, tier, seed)
 
 
 # =========================================================================================
 # driver
 # =========================================================================================
-_RUN = {"a": _a_unit, "p": _p_unit, "b": _b_unit, "c": _c_unit, "s": _s_unit, "d": _d_unit}
+_RUN = {"a": _a_unit, "p": _p_unit, "b": _b_unit, "c": _c_unit, "s": _s_unit, "d": _d_unit, "j": _j_unit}
 
 
 def _all_units(tier):
-    return _a_units(tier) + _p_units(tier) + _b_units(tier) + _c_units(tier) + _s_units(tier) + _d_units(tier)
+    return (_a_units(tier) + _p_units(tier) + _b_units(tier) + _c_units(tier) + _s_units(tier) + _d_units(tier)
+            + _j_units(tier))
 
 
 def shards(tier, seed):
